@@ -24,7 +24,6 @@ use std::path::Path;
 use std::path::PathBuf;
 use std::rc::Rc;
 use std::sync::LazyLock;
-use chrono::{Datelike, Local, Timelike};
 use mp3_metadata::MP3Metadata;
 use regex::Regex;
 use sha1::Digest;
@@ -112,9 +111,11 @@ where
 
         // plain numbers, including negative and fractional results of expressions
         if let (Ok(a), Ok(b)) = (a_str.parse::<f64>(), b_str.parse::<f64>()) {
-            if let Some(ord) = a.partial_cmp(&b) {
-                return ord;
-            }
+            // a total order (NaN after every number), or the sort is not transitive
+            return match a.partial_cmp(&b) {
+                Some(ord) => ord,
+                None => a.is_nan().cmp(&b.is_nan()),
+            };
         }
 
         let a = parse_filesize(&a_str).unwrap_or(0);
@@ -128,19 +129,10 @@ where
     where
         T: Ord,
     {
-        let default = Local::now()
-            .naive_local()
-            .with_year(1970)
+        // a value that is no date sorts as 1970-01-01 (built from constants: today's date may have no 1970 twin)
+        let default = chrono::NaiveDate::from_ymd_opt(1970, 1, 1)
             .unwrap()
-            .with_month(1)
-            .unwrap()
-            .with_day(1)
-            .unwrap()
-            .with_hour(0)
-            .unwrap()
-            .with_minute(0)
-            .unwrap()
-            .with_second(0)
+            .and_hms_opt(0, 0, 0)
             .unwrap();
         let a = parse_datetime(&self.values[i].to_string())
             .unwrap_or((default, default))
